@@ -227,7 +227,7 @@ def d5(ctx):
         yield Ob(key_of("C20-D5", b.path, "return-only-on-empty"), ok_r, "returns only when the sentinel is (SENTINEL, SENTINEL), i.e. the list is empty", b.loc())
 
 
-@rule("C20-D6", "C20", 2, "discard_freelist: read-only arenas get Err(ReadOnly); Freelist::None returns 0 without touching anything")
+@rule("C20-D6", "C20", 4, "discard_freelist: read-only arenas get Err(ReadOnly); Freelist::None returns 0 without touching anything")
 def d6(ctx):
     for fl in FLAVOURS:
         b = ctx.facts.one(r"^<%s::Arena as allocator::Allocator>::discard_freelist$" % fl)
@@ -249,6 +249,10 @@ def d6(ctx):
         errs = [r for r in res.log if r["kind"] == "ret0" and not r["chain"] and tag(r["value"]) == "variant" and r["value"][2] == "Err"]
         ok2 = len(errs) == 1 and ("bool", field(SELF, "ro"), True) in ctx.facts_of(ev, errs[0]) and r_is(errs[0]["value"], "ReadOnly")
         yield Ob(key_of("C20-D6", b.path, "ro-err"), ok2, "read-only: Err(ReadOnly)", b.loc())
+        # and nothing but that: no Ok on a read-only arena, whatever its free-list kind (`match kind { None => Ok(0), _ if ro => Err(..), .. }`)
+        oks = [r for r in res.log if r["kind"] == "ret0" and not r["chain"] and tag(r["value"]) in ("variant", "vsum") and "Ok" in show(r["value"])[:4]]
+        ok3 = bool(oks) and all(("bool", field(SELF, "ro"), False) in ctx.facts_of(ev, r) for r in oks)
+        yield Ob(key_of("C20-D6", b.path, "ok-only-when-writable"), ok3, "every Ok return (%d) lies behind the read-only test" % len(oks), b.loc())
 
 
 def r_is(v, name):
